@@ -520,6 +520,10 @@ def same_but_escape_begin(src, ic, m):
     return mlo <= lo <= hi and (lo == len(bs) or (bs[lo] & 0xC0) != 0x80)
 
 
+def case_text(c):
+    return c["src"] if "src" in c else c.get("hex", "")
+
+
 def impl_canon(r):
     e = r["lex"]["e"]
     return r["lex"]["t"] + "|" + ("-" if e is None else "%s %d %d" % (e[0], e[1], e[2]))
@@ -576,7 +580,7 @@ def evaluate(ctx, raw_cases, with_model=True):
     for i, rc, log in crashes:
         c = cases[i]
         failures.append({"key": "C05/crash/exit-%s" % rc, "what": "the process died (exit status %s: abort, stack overflow, signal or time limit) on input %r %s"
-                         % (rc, (c.get("src") or c.get("hex"))[:200], log.strip()[-120:]), "replay": {"case": c, "rc": rc}})
+                         % (rc, case_text(c)[:200], log.strip()[-120:]), "replay": {"case": c, "rc": rc}})
     model_in = []
     if with_model:
         for i, (c, r) in enumerate(zip(cases, res)):
@@ -603,7 +607,7 @@ def evaluate(ctx, raw_cases, with_model=True):
         if r is None:
             continue
         if "panic" in r:
-            failures.append({"key": panic_key(r["panic"]), "what": "panic %r on input %r" % (r["panic"][:200], (src or c.get("hex"))[:300]),
+            failures.append({"key": panic_key(r["panic"]), "what": "panic %r on input %r" % (r["panic"][:200], case_text(c)[:300]),
                              "replay": {"case": c, "impl": r}})
             continue
         n = r["len"]
@@ -626,7 +630,7 @@ def evaluate(ctx, raw_cases, with_model=True):
             else:
                 key = "C05/%s/%s" % (code, (r["lex"]["e"] or ["parser"])[0] if code.startswith("error") else detail.split(" ")[0])
             failures.append({"key": key, "what": "%s: %s on input %r (specification: spans lie inside the file, on character boundaries, inside the parent, "
-                             "and cover their own text); model says %s" % (code, detail, (src or c.get("hex"))[:300], (m or "n/a")[-120:]),
+                             "and cover their own text); model says %s" % (code, detail, case_text(c)[:300], (m or "n/a")[-120:]),
                              "replay": {"case": c, "impl": {"lex": r["lex"], "bad": r["bad"]}, "model": m}})
         # (b) dialect monotonicity
         ps = r["p"]
@@ -635,22 +639,17 @@ def evaluate(ctx, raw_cases, with_model=True):
                 msgs.add(re.sub(r"[`'\"].*", "", p["msg"])[:60])
             else:
                 accepted += 1
-        for p1 in ps:
-            if not p1["ok"]:
-                continue
-            for p2 in ps:
-                if p1 is p2 or not d_le(p1["d"], p2["d"]):
-                    continue
+        pairs = [(p1, p2) for p1 in ps if p1["ok"] for p2 in ps if p1 is not p2 and d_le(p1["d"], p2["d"])]
+        pairs.sort(key=lambda pq: sum(1 for k in range(9) if pq[0]["d"][k] != pq[1]["d"][k]))   # report the closest pair
+        for p1, p2 in pairs:
+            if True:
                 if not p2["ok"] or p2["h"] != p1["h"]:
                     flag = [k for k in range(9) if p1["d"][k] != p2["d"][k]]
                     failures.append({"key": "C05/dialect-not-monotone/%s" % ("rejects" if not p2["ok"] else "tree-changes"),
                                      "what": "accepted under dialect %s but %s under the larger dialect %s (flags differing: %s): %r %s"
-                                     % (p1["d"], "rejected" if not p2["ok"] else "a different tree", p2["d"], flag, (src or "")[:300], p2.get("msg", "")),
+                                     % (p1["d"], "rejected" if not p2["ok"] else "a different tree", p2["d"], flag, case_text(c)[:300], p2.get("msg", "")),
                                      "replay": {"case": c, "d1": p1, "d2": p2}})
                     break
-            else:
-                continue
-            break
         # (d) tie with the Coq model
         if m is not None:
             compared += 1
@@ -676,7 +675,7 @@ def correspond(ctx):
     for o in ("corner", "soup", "mutant", "nesting"):
         for c in cases:
             if c["o"] == o:
-                samples.append({"origin": o, "src": (c.get("src") or c.get("hex"))[:120]})
+                samples.append({"origin": o, "src": case_text(c)[:120]})
                 break
     cov = {
         "evaluations": st["evaluations"],
@@ -737,15 +736,20 @@ def replay(ctx, rep):
 
 META = {
     "category": "proof",
-    "level_text": "Partial. Proved in Coq for all inputs (Properties/C05.v): the lexer model (scanner rules, indentation stack, paren depth, "
-                  "string/bytes/f-string scanners with the code's own offset arithmetic, extracted escape table) never runs out of fuel "
-                  "length+1 (every round consumes at least one character), all token spans are ordered, within the file and on character "
-                  "boundaries, INDENT/DEDENT balance, escape decoding is total; every error span is within the file and on boundaries except "
-                  "the f-string escape error, for which the boundary claim is proved REFUTED with the witness x = f\"\\x\u00e9\" (finding F2) "
-                  "and proved to hold when the last consumed character is one byte wide; span nesting for bottom-up recursive-descent "
-                  "trees; dialect monotonicity of the validation pass. NOT provable on a model and therefore searched: absence of "
-                  "panics/aborts/stack overflows in the real lexer+parser (child processes, nesting to 200, sizes to 64 KiB), span nesting "
-                  "and exact-text spans of the real AST, monotonicity of the real parser under the dialect lattice.",
+    "level_text": "Partial. Proved in Coq for all inputs (Properties/C05.v, 20 statements closed under the global context): the lexer model "
+                  "(logos scanner rules, indentation stack, paren depth, string/bytes/f-string scanners with the code's own offset "
+                  "arithmetic, extracted escape table) never runs out of fuel length+1 (every round of Lexer::next consumes a character); all "
+                  "token spans are ordered, non-overlapping, within the file and on character boundaries; INDENT/DEDENT balance and the "
+                  "indentation stack stays strictly increasing; escape decoding yields scalar values / bytes or an error (lone surrogates, "
+                  ">0x10FFFF, \\x + non-hex are errors); `#[token]` lexemes cover exactly their spelling, identifiers a maximal identifier run, "
+                  "string literals end right after their closing quote; every error span is within the file and ends on a boundary, and "
+                  "starts on one except the f-string escape error, for which the boundary claim is proved REFUTED with the witness "
+                  "x = f\"\\x\u00e9\" (finding F2, span 9..10) while the translator reads `start + it.pos() - 1` from the source, and proved "
+                  "to HOLD for all inputs once the source computes the span from the backslash (same pinned statements, both modes compile); "
+                  "span nesting at every depth for bottom-up recursive-descent trees over the lexer's monotone tokens; dialect monotonicity "
+                  "of validate.rs + the two parser gates, tree unchanged. NOT provable on a model and therefore searched on the real code: "
+                  "absence of panics/aborts/stack overflows/hangs in lexer+parser (child processes with bisection, nesting to 200, sizes to "
+                  "64 KiB), span nesting / char boundaries / exact-text spans of the real AST, monotonicity of the real parser on the dialect lattice.",
     "level_note": "Trusted: Coq kernel; extraction + ocaml/lex_driver.ml; translator; the hand-written scanner standing for logos-generated "
                   "code; harness AST walker. The parser itself is not modelled in this property (C06 models the expression grammar). "
                   "The tie is differential testing on generated inputs.",
